@@ -148,6 +148,15 @@ def check_memo_keys(ctx, rep, rule, modules, min_sites=1, only_functions=None):
                         missing.add(nm)
                 # the algorithm object's own immutable configuration is not an input of the key
                 missing = {m for m in missing if not m.startswith("self.")}
+                lossy = _lossy_projection(keys)
+                if lossy and not missing:
+                    rep.violation(
+                        rule,
+                        (fi, node),
+                        f"{cache}[{key_text}]",
+                        f"memo {cache}: the key `{key_text}` projects its inputs lossily ({lossy}); two different requests can share one entry",
+                    )
+                    continue
                 if missing:
                     rep.violation(
                         rule,
@@ -165,12 +174,30 @@ def check_memo_keys(ctx, rep, rule, modules, min_sites=1, only_functions=None):
     return n_sites
 
 
+_LOSSY_CALLS = {"len", "bool", "type", "id", "hash", "str", "repr", "any", "all", "sum", "min", "max", "sorted", "set", "frozenset"}
+
+
+def _lossy_projection(keys):
+    """A key component that filters or summarises an input is not injective in that input."""
+    for k in keys:
+        for n in ast.walk(k):
+            if isinstance(n, (ast.GeneratorExp, ast.ListComp, ast.SetComp, ast.DictComp)):
+                for g in n.generators:
+                    if g.ifs:
+                        return f"comprehension filtered by `{norm(g.ifs[0])}`"
+            if isinstance(n, ast.Call) and isinstance(n.func, ast.Name) and n.func.id in ("len", "bool", "any", "all", "sum", "min", "max"):
+                return f"summarised by {n.func.id}()"
+            if isinstance(n, ast.BoolOp):
+                return "boolean combination"
+    return None
+
+
 def _derived_from(name, key_names, defs, prog, mod, locs, depth):
     if depth == 0 or name not in defs:
         return False
     for d in defs[name]:
         for nm in _names(d, prog, mod, locs):
-            if nm in key_names or nm == name:
+            if nm in key_names or nm == name or nm.startswith("self."):
                 continue
             if not _derived_from(nm, key_names, defs, prog, mod, locs, depth - 1):
                 return False
